@@ -11,6 +11,8 @@
 (*                  r/OWNER-case, r/rdata-name-case, r2, r3, for a type with   *)
 (*                  (names = TRUE) and without an embedded name (then          *)
 (*                  r/rdata-name-case is r itself) -> [q, names, keep, ttls]   *)
+(*   Mode "labels"  every pair of names (label sequences over a . \ , up to 3   *)
+(*                  octets in 1 or 2 labels) as owner / as embedded name       *)
 (*   Mode "seqs"    every pair of lists of at most N symbols, for two Dedup    *)
 (*                  calls in a row (with nil, fresh or one re-used scratch     *)
 (*                  map): each result as if the call were the only one         *)
@@ -25,6 +27,17 @@ InShard(r) == (r.o[1] + r.n[1] + r.v + r.ttl + r.t) % NShards = Shard
 SymNoName == [Sym EXCEPT ![4] = [Sym[1] EXCEPT !.ttl = 3]]
 ListOfN(q, names, sh) == [i \in 1..Len(q) |-> ToText(WithOwner(IF names THEN Sym[q[i]] ELSE SymNoName[q[i]], sh))]
 
+\* Mode "labels": names as LABEL SEQUENCES over the octets a . \ : a dot inside a label is not a label
+\* boundary ( <<"a.b">> is not <<"a", "b">> ), a backslash octet is an octet like any other
+LAlpha == {97, 46, 92}
+LLabels(k) == UNION { [1..m -> LAlpha] : m \in 1..k }
+LNames == { << l >> : l \in LLabels(3) }
+          \cup { << l1, l2 >> : l1 \in LLabels(2), l2 \in LLabels(1) } \cup { << l1, l2 >> : l1 \in LLabels(1), l2 \in LLabels(2) }
+LFull(n) == n \o << <<110, 108>> >>                                  \* under nl.
+LRec(n, w) == [t |-> 1, c |-> 1, ow |-> IF w = 1 THEN EncName(LFull(n)) ELSE EncName(<< <<97>> >>),
+               rd |-> IF w = 2 THEN EncName(LFull(n)) ELSE EncName(<< <<120>> >>),
+               spans |-> << << 0, IF w = 2 THEN WireLen(LFull(n)) ELSE 3 >> >>]
+
 \* Mode "octets": names that differ in one octet c / c XOR 0x20, in the owner (w = 1) or in an embedded name (w = 2)
 Partner(c) == IF (c \div 32) % 2 = 0 THEN c + 32 ELSE c - 32
 OctRec(c, w) == [t |-> 1, c |-> 1, o |-> IF w = 1 THEN <<120, c, 121>> ELSE <<97>>, ttl |-> 1,
@@ -35,6 +48,7 @@ GInit == \/ Mode = "pairs"   /\ \E a \in Recs, b \in Recs : x = << a, b >> /\ In
          \/ Mode = "lists"   /\ \E q \in UNION { [1..k -> 1..Len(Sym)] : k \in 0..N }, names \in BOOLEAN, sh \in 1..Len(Shapes) :
                                    x = << q, names, sh >> /\ (sh = 1 \/ Len(q) >= 2)
          \/ Mode = "octets"  /\ \E c \in 0..255, w \in 1..2 : x = << c, w >>
+         \/ Mode = "labels"  /\ \E a \in LNames, b \in LNames, w \in 1..2 : x = << a, b, w >>
          \/ Mode = "seqs"    /\ \E q1 \in UNION { [1..k -> 1..Len(Sym)] : k \in 0..N }, q2 \in UNION { [1..k -> 1..Len(Sym)] : k \in 0..N },
                                    names \in BOOLEAN : x = << q1, q2, names >>
 GNext == UNCHANGED x
@@ -48,6 +62,9 @@ Out ==
          Emit([kind |-> "list", q |-> x[1], names |-> x[2], shape |-> x[3],
                owners |-> [k \in 1..3 |-> Present(<< Shapes[x[3]][k] >>)],
                keep |-> [k \in 1..Len(d) |-> d[k].i], ttls |-> [k \in 1..Len(d) |-> d[k].ttl[2]]])
+    [] Mode = "labels" ->
+         Emit([kind |-> "name2", w |-> x[3], ta |-> Present(LFull(x[1])), tb |-> Present(LFull(x[2])),
+               dup |-> IsDup(LRec(x[1], x[3]), LRec(x[2], x[3]))])
     [] Mode = "seqs" ->    \* two calls in a row: the result of each depends on its own argument only
          LET d1 == DedupIdx(ListOfN(x[1], x[3], 1))  d2 == DedupIdx(ListOfN(x[2], x[3], 1)) IN
          Emit([kind |-> "seq", q |-> x[1], q2 |-> x[2], names |-> x[3],
